@@ -79,6 +79,7 @@ pub static OPS: &[OpDef] = &[
     // ---- constructors / builders (C01, C02 round trip)
     op!("builder.finish", "ctor", false, false, ctor::plan),
     op!("builder.finish_cloned", "ctor", false, false, ctor::plan),
+    op!("builder.append_array", "ctor", false, false, ctor::plan),
     op!("builder.finish_preserve_values", "ctor", false, false, ctor::plan),
     op!("from_iter", "ctor", false, false, ctor::plan),
     op!("from_vec", "ctor", false, false, ctor::plan),
